@@ -280,13 +280,13 @@ pub fn model_pool(tier: Tier) -> Vec<(String, Vec<u8>)> {
         }
         .to_bytes(),
     ));
-    let step1 = tier.pick(400, 40);
+    let step1 = tier.pick(100, 2);
     for (_, fam) in crate::c01::families(Tier::Quick) {
         for b in fam.into_iter().step_by(step1) {
             out.push((format!("C01:{}", b.desc), b.spec.to_bytes()));
         }
     }
-    let step2 = tier.pick(300, 30);
+    let step2 = tier.pick(75, 2);
     for c in crate::c06::families(Tier::Quick).into_iter().step_by(step2) {
         out.push((format!("C06:{}", c.desc), c.spec.to_bytes()));
     }
